@@ -5,7 +5,7 @@ R1 identity-key completeness, R2 label flow, R3 sort key is order-only.
 import ast
 
 from sa import callgraph
-from sa.astutil import (anorm, call_name, calls_in, dotted, norm, walk_no_nested, last_attr,
+from sa.astutil import (effective, anorm, call_name, calls_in, dotted, norm, walk_no_nested, last_attr,
                         names_in, format_fields, concat_str, enclosing_loops, ancestors,
                         str_consts)
 from sa.loader import AnalysisError
@@ -387,8 +387,7 @@ def run(ctx):
              and isinstance(n.targets[0], ast.Attribute) and n.targets[0].attr == 'numb']
     ctx.ob('C06.R3', 'sorted-order:renumbering-only',
            'self.atoms.sort(key=self.sort_atoms_key)' in norm(sa) and len(renum) == 1
-           and len([n for n in sa.body if not (isinstance(n, ast.Expr)
-                                               and isinstance(n.value, ast.Constant))]) == 2,
+           and len(effective(sa.body)) == 2,
            'the sorted order is only used to renumber atoms (serials are inert: C07.R2)', cc, sa)
     # ------------------------------------------------------------------ R4
     # identifiers given on the command line (-i) are compared with the raw
